@@ -209,6 +209,19 @@ def run(ctx):
         ctx.count("directed_paths_through_native_sign_changes")
         if not ok:
             ctx.oracle_fail("update-script:shin-metiu", "script", a, obs, req, text)
+    # whole PATHS of continued updates (3..8 points, smooth stretches and jumps) against MudModel.Basis.track: every tracked
+    # eigenvector set of the path, given the eigh results captured at each point
+    from .. import pathtrack
+    pnames = [nm for nm in c05.REGISTERED + ["subotnik2d", "synth"] if nm != "shin-metiu"]
+    plines, pkeep = pathtrack.build(rng, c05.make_model, c05.random_spec, c05.random_position, ec, fbs, ctx.budget(22, 400), pnames)
+    pouts = ctx.model.run(plines)
+    for pspec, pN, pL, psmooth, pflips, pprob in pathtrack.compare(pkeep, pouts, unfb, allclose):
+        ctx.case(("track", pspec["name"], pN, psmooth, pflips > 0), {"op": "track", "model": pspec["name"], "points": pL, "columns_flipped": pflips})
+        ctx.count("tracked_paths")
+        ctx.count("tracked_path_points", pL)
+        ctx.count("tracked_path_columns_flipped", pflips)
+        if pprob:
+            ctx.corr_mismatch("track", pspec, pprob)
     outs = ctx.model.run(lines)
     for (spec, el, prev, cf, N, n), o in zip(keep, outs):
         vals = np.array([unfb(t) for t in o[1:1 + N * N]]).reshape(N, N)
